@@ -16,3 +16,7 @@ func openEnv() *env {
 	db, _ := OpenWithStore(ms)
 	return &env{db: db, ms: ms}
 }
+
+func sameBlob(a, b []byte) bool { return string(a) == string(b) }
+
+func fbits(f float64) uint64 { return mathFloat64bits(f) }
